@@ -52,7 +52,8 @@ Wav gen_wav(Tape& t, const refclm::WaveFormat& f, size_t maxData) {
 	w.spec.fmt = f; w.spec.fmt18 = t.flag(); w.spec.cb = 0;
 	size_t dl = t.pick<uint32_t>({0, 1, 2, 3, 7, 64, 100, 4096});
 	if (t.flag()) dl = t.below(maxData + 1);
-	w.spec.data = t.expand(dl);
+	w.spec.data = t.expand(dl); volgen::plant_format_bytes(w.spec.data);   // one in eight: audio bytes that look like RIFF/WAVE headers, chunk headers, the clump header ...
+	if (dl >= 64 && (w.spec.data[6] & 15) == 1) { refclm::WavSpec inner; inner.fmt = f; inner.fmt18 = w.spec.data[7] & 1; inner.data.assign(w.spec.data.begin() + 48, w.spec.data.begin() + 56); auto nested = refclm::build_wav(inner); if (nested.size() <= dl) std::copy(nested.begin(), nested.end(), w.spec.data.begin()); }   // the audio data IS a complete WAV file (nested)
 	unsigned nb = unsigned(t.below(3)), nm = unsigned(t.below(2)), na = unsigned(t.below(3));
 	if (t.below(3) == 0) nb = nm = na = 0;
 	for (unsigned i = 0; i < nb; ++i) w.spec.beforeFmt.push_back(gen_chunk(t));
